@@ -132,7 +132,8 @@ QuietCheck(st, t) ==
   ELSE IF On("C08") /\ silentSince >= 0 /\ ~ownerClosed /\ t >= silentSince + PingDetect /\ st # 4 THEN "C08.closed"
   ELSE IF On("C08") /\ silentSince >= 0 /\ ~ownerClosed /\ t >= silentSince + PingDetect /\ ~everFaulted THEN "C08.signal"
   ELSE "ok"
-QuietUpd(st, t) == /\ tclock' = t /\ recent' = {} /\ stray' = {}
+\* stray frames stay matchable while a handed-in request has not been written yet (blocked writes)
+QuietUpd(st, t) == /\ tclock' = t /\ recent' = {} /\ stray' = (IF nreq > written THEN stray ELSE {})
                    /\ UNCHANGED <<reqs, delivered, failed, preFail, errOnly, ownerClosed, signalled, everFaulted, silentSince, beforeSilence, unanswered, held, peak, maxTag, written, nreq>>
 
 \* The driver issues a probe only when the transport reports Open with nothing in flight.
